@@ -13,16 +13,16 @@ CHECKS = {
  "C08": ("inputs", "model_checking", "exhaustive input enumeration (every value of the small types, every byte-string length 0..=20480, every destination-buffer length) on the real encode/decode and end to end through the real hybrid cache, with the independent format reader D",
    "All u8/i8/u16/i16/bool values, pattern sets for wider types, Strings, Vec<u8>/Bytes of every length 0..=20480 x 3 content classes and of the lengths around every power of two (and 3*2^k) up to 4 MiB; every too-small destination length; end-to-end insert->flush->evict->get->reopen->get for every (second) length x none/zstd/lz4.",
    "Both Code paths: the native implementations and (second build with foyer/serde) the blanket bincode implementation; wide numeric types are covered by bit patterns, not exhaustively.", "DESIGN.md 4 C08"),
- "C09": ("V", "model_checking", V + "; monitors on the device-write log and on pre-images parsed by the independent reader D",
-   "Sustained workloads of ~4 device capacities on 4/6/8 blocks, flushers 1-3, reclaimers 1-2, clean threshold 1-2, reinsertion none/one key; Eager/LazyIo/Alternate(/ClientFirst) with all schedules within the deviation bound.",
+ "C09": ("V+TH", "model_checking", V + "; monitors on the device-write log and on pre-images parsed by the independent reader D; plus deviation-bounded exploration of client threads against TWO runtime-worker threads (flusher, reclaimer and load tasks in parallel) on a device one entry short of a reclaim (Engine TH)",
+   "Sustained workloads of ~4 device capacities on 4/6/8 blocks, flushers 1-3, reclaimers 1-2, clean threshold 1-2, reinsertion none/one key, FIFO picker alone or (64 KiB blocks, deletes emptying one non-oldest block) the default invalid-ratio + FIFO pair; Eager/LazyIo/Alternate(/ClientFirst) with all schedules within the deviation bound. Thread part: [ins; ins] against get / remove of an entry of the block about to be reclaimed, 2-3 client threads, 2 runtime workers, all schedules with <=1-2 (2-3) deviations.",
    "Workloads are a fixed family; what is exhaustive is the schedule space within the bound; reinsertion is configured modestly (the crate documents that picking too much gets it stuck).", "DESIGN.md 4 C09"),
  "C16": ("S+T+V+TH", "model_checking", "bounded-exhaustive sequence exploration with re-entrant callbacks under a lock-holding monitor (Engine S + parking_lot facade), preemption-bounded thread exploration with deadlock detection on the memory cache (Engine T) and on the hybrid cache with a runtime-worker thread (Engine TH), and deviation-bounded exploration of the hybrid cache with the same monitor in its user callbacks (Engine V)",
    "All sequences of <=3 (4) operations incl. in-flight fetches and lookup-only fetches (miss; joined by a fetching caller) x five algorithms x re-entry mode; listener, weighter, filter, key and value destructors assert that no cache lock is held and call back into the cache; C02's thread programs with deadlock detection.",
    "std::sync::RwLock in the block manager is not intercepted; the hybrid part probes value destructor, listener, weighter and admission filter (keys are u64 there).", "DESIGN.md 4 C16"),
 
  "C03": ("F", "fault_enumeration", "exhaustive single-page fault enumeration (zero / bit flips / page swaps / stale generations) over device images produced by real workloads, each reopened and fully read through the real code (enumerator F on Engine V images)",
-   "Every page of every partition file incl. the tombstone log x the fault menu; 2 base images (quick) / 12 (thorough: compression x tombstone log x fresh/wrapped).",
-   "Single-page faults only; values carry key+version+deterministic payload so any foreign or garbage byte is visible; worker death while evaluating an image is reported as a verdict (journal).", "DESIGN.md 2.8, 4 C03"),
+   "Every page of every partition file incl. the tombstone log x the fault menu (quick: every bit of the first 64 bytes + one bit per 256 bytes; thorough: every bit of the first 160 bytes + one bit of every byte; page swaps; stale generations; pairs of page-granular faults); 2 base images (quick) / 12 (thorough: compression x tombstone log x fresh/wrapped).",
+   "Single faults of the whole menu and pairs of page-granular faults (zeroed / stale pages); values carry key+version+deterministic payload so any foreign or garbage byte is visible; worker death while evaluating an image is reported as a verdict (journal).", "DESIGN.md 2.8, 4 C03"),
  "C04": ("K", "fault_enumeration", "exhaustive crash-point / in-flight-subset / page-tear enumeration over the device-write logs of explored executions, each crash image recovered by the real code (enumerator K on Engine V logs)",
    "All workloads of 4 (5) calls over insert/overwrite/remove/wait x policies x tombstone log; every write boundary x every subset of in-flight writes x page tears; crash/restart depth 2 with three second-session workloads (rewrite k1; delete k2 only; insert k2 only) and first-session acknowledgements carried over for keys the second session does not write.",
    "Page-atomic device writes; concurrent writes unordered; acknowledgement = wait() first polled after the version reached the write queue and completed before the crash.", "DESIGN.md 2.8, 4 C04"),
@@ -41,7 +41,7 @@ CHECKS = {
    "Single caller thread; victims are followed not judged; resize's per-shard jobs run inline through the foyer-memory verif spawner seam (one legal schedule of helper threads that are joined before resize returns).", "DESIGN.md 2.2, 4 C05"),
  "C06": ("V", "model_checking", V + "; event-level enumeration of caller / disk / origin / cancel orderings",
    "2-3 overlapping callers (11 orders of get / get_or_fetch), held origins resolving ok/err, one injected disk read error, fetch-task cancellation, caller drop, concurrent insert/remove; memory-only x algorithms and hybrid x policies; disk state (absent / on disk only / throttled) set up by a FIFO prologue.",
-   "Deviation-bounded (2 quick / 3 thorough) around ClientFirst and Eager schedules; disk-lookup throttling not injected here.", "DESIGN.md 4 C06"),
+   "Deviation-bounded (2 quick / 5 thorough, complete) around ClientFirst and Eager schedules; disk-lookup throttling not injected here.", "DESIGN.md 4 C06"),
  "C11": ("V+T", "model_checking", V + "; orderings of fetch start / insert / origin resolution; plus preemption-bounded thread interleavings of get_or_fetch vs insert on the memory cache (Engine T)",
    "Held fetches (1-2 callers + lookup-only waiter), one or two explicit inserts (ordinary, disk-only / storage-writer, in-memory-only), later lookups; memory-only x five algorithms and hybrid x policies; deviation bound 2 (quick) / 4 (thorough); thread part: get_or_fetch vs insert(s)/remove on one key, five algorithms, also with an admission filter that rejects the fetched value (phantom record), <=2 (3) preemptions at lock granularity.",
    "Hybrid cache: the premise 'while waiting on its origin' is evaluated at task-poll granularity; thread granularity is explored on the memory cache only.", "DESIGN.md 4 C11"),
@@ -54,7 +54,7 @@ CHECKS = {
  "C14": ("S", "model_checking", S + " (five reference eviction algorithms A)",
    "Single shard, all sequences to depth 3 (4) + BFS on the reference algorithm's complete state, several configurations per algorithm, capacities 2..6, plus states reached through a resize; victim sequences compared eviction by eviction.",
    "Reference w-TinyLFU shares the datasketches sketch; S3-FIFO ghost duplicates and SIEVE hand reset follow the implementation (undocumented).", "DESIGN.md 4 C14"),
- "C15": ("V", "model_checking", V + "; close + reopen + read-back",
+ "C15": ("V+TH", "model_checking", V + "; close + reopen + read-back; plus preemption-bounded exploration of close() on one client thread against inserts / lookups / a second close() on other threads (Engine TH)",
    "All histories of <=3 (4) calls ending in close / close;close / close;insert / drop-without-close, reopen, read all; policies x flush_on_close; plus histories after two refused (oversize) entries on an engine whose submit-queue budget is two such entries.",
    "Resident sets far below the flush buffer; no disk-capacity eviction.", "DESIGN.md 4 C15"),
  "C17": ("V+S+TH", "model_checking", V + ", Engine S, and client threads racing on the hybrid cache (Engine TH), all with a colliding user hasher; oracle R / ledger",
@@ -92,7 +92,7 @@ manifest = {
         {"name": "S", "path": "harness/checks/src/seq.rs", "serves_properties": ["C05", "C13", "C14", "C16", "C17", "C18"], "kind_free_text": "exhaustive operation sequences + explicit-state BFS on the real in-memory cache, lock-step with a reference ledger / reference algorithms"},
         {"name": "V", "path": "harness/checks/src/hyb.rs", "serves_properties": ["C01", "C06", "C07", "C09", "C10", "C11", "C12", "C15", "C16", "C17"], "kind_free_text": "deviation-bounded stateless exploration of the real hybrid cache: vrt (madsim-tokio substitute) owns task polling, simio owns device IO completion/failure, the client program owns call timing"},
         {"name": "T", "path": "harness/checks/src/props_c02.rs + harness/plshim", "serves_properties": ["C02", "C11", "C13", "C16", "C18"], "kind_free_text": "preemption-bounded exploration of OS-thread interleavings: plshim (parking_lot substitute) turns every lock operation into a scheduling point of a cooperative scheduler"},
-        {"name": "TH", "path": "harness/checks/src/props_th.rs + harness/plshim + harness/vrt", "serves_properties": ["C01", "C16", "C17"], "kind_free_text": "preemption-bounded exploration of OS-thread interleavings of the real hybrid cache: 2-3 client threads and one runtime-worker thread (task polls, device IO completions) under the cooperative scheduler; scheduling points at every foyer lock operation and runtime step"},
+        {"name": "TH", "path": "harness/checks/src/props_th.rs + harness/plshim + harness/vrt", "serves_properties": ["C01", "C09", "C15", "C16", "C17"], "kind_free_text": "preemption- (or, with two runtime workers, deviation-) bounded exploration of OS-thread interleavings of the real hybrid cache: 2-3 client threads and one or two runtime-worker threads (task polls, device IO completions) under the cooperative scheduler; scheduling points at every foyer lock operation and runtime step"},
         {"name": "F/K", "path": "harness/checks/src/props_c03.rs, props_c04.rs", "serves_properties": ["C03", "C04"], "kind_free_text": "fault / crash enumerators over images and IO logs produced by Engine V, evaluated by real recovery"},
         {"name": "core", "path": "harness/vcore", "serves_properties": sorted(done), "kind_free_text": "iterative deviation bounding, replay files, evidence, known findings, process sharding"},
     ],
